@@ -414,7 +414,7 @@ def leaf_heter(out):
         b = [c for c in kids(mth) if c.get('kind') == 'CompoundStmt']
         if not b:
             continue
-        fors = find_all(b[0], 'ForStmt')
+        fors = [x for x in walk(b[0]) if x.get('kind') in ('ForStmt', 'WhileStmt', 'DoStmt')]
         if not fors:
             continue        # terminal overload
         if targs[0].startswith('eventpp::internal_::FindPrototypeByCallable<'):
@@ -428,7 +428,7 @@ def leaf_heter(out):
         chain.append((targs[0], ty))
     if first is None:
         raise Untranslatable('doProcessIf: sample instantiation not found')
-    fors = find_all(first, 'ForStmt')
+    fors = [x for x in walk(first) if x.get('kind') in ('ForStmt', 'WhileStmt', 'DoStmt')]
     loop = kids(fors[0])[-1]
     if loop.get('kind') != 'CompoundStmt':
         raise Untranslatable('doProcessIf: loop body is not a block')
